@@ -33,12 +33,26 @@ def hopdist(n, edges, s, t):
     return d.get(t)
 
 
+def deep_path_query(rng):
+    """`B s t hops <path graph>` on a path with 300..700 vertices, from one end to the other end or to an inner vertex at hop distance d around 256 / 300 /
+    n/2, with a hop bound around 255 / 256 / 257 / 300 / d-1 / d / d+1 / inf or strictly between 256 and d: hop distances beyond 255 must be counted
+    (with d > 256 every bound below d must answer false)."""
+    n = rng.randint(300, 700)
+    d = rng.choice([n - 1, n - 1, n - 1, n - 2, 255, 256, 257, 258, 290, 299, n // 2, rng.randint(257, n - 1)])
+    hs = [255, 256, 257, 300, d - 1, d - 1, d, d + 1, "inf"]
+    if d > 257: hs += [rng.randint(256, d - 1), rng.randint(256, d - 1), (256 + d) // 2]
+    h = rng.choice(hs)
+    s, t = (0, d) if rng.random() < 0.7 else (n - 1, n - 1 - d)
+    return "B %d %d %s %s" % (s, t, h, gen.graph_tokens((n, [(i, i + 1, 1) for i in range(n - 1)])))
+
+
 def long_history(rng, ncalls):
     """A long history of is_bfs_reachable calls made by ONE thread of ONE process, the i-th line being exactly the i-th call of that thread
     (the stream runs in its own process, B cases only).  State that survives between calls (visited stamps, cached buffers, counters) is what this
     stream is after: most calls use tiny random graphs; at the call numbers where a narrow counter would wrap (2^8, 2^15, 2^16, 2*2^16 and their
     neighbours) the query runs on a graph LARGER than any before (vertices never touched so far), and the queries numbered 10..40 use private
-    vertex ranges that are touched again only exactly 2^8, 2^15 and 2^16 calls later (a stale mark would then equal the current stamp)."""
+    vertex ranges that are touched again only exactly 2^8, 2^15 and 2^16 calls later (a stale mark would then equal the current stamp).  Every 1600th call (from call 1500 on) is
+    a `deep_path_query`: a long path, hop distances and hop bounds beyond 255."""
     def path(n): return (n, [(i, i + 1, 1) for i in range(n - 1)])
     wraps = [1 << 8, 1 << 15, 1 << 16, 2 << 16]
     fresh = {}
@@ -51,9 +65,11 @@ def long_history(rng, ncalls):
         n = 300 + 7 * s
         for w in [0] + wraps[:3]:
             if s + w <= ncalls: private[s + w] = n
+    deep = {i: deep_path_query(rng) for i in range(1500, ncalls + 1, 1600) if i not in fresh and i not in private}
     out = []
     for i in range(1, ncalls + 1):
-        if i in fresh:
+        if i in deep: out.append(deep[i])
+        elif i in fresh:
             n = fresh[i]; g = path(n); out.append("B 0 %d inf %s" % (n - 1, gen.graph_tokens(g)))
         elif i in private:
             n = private[i]; g = (n, [(0, n - 3, 1), (n - 3, n - 2, 1), (n - 2, n - 1, 1)]); out.append("B 0 %d 3 %s" % (n - 1, gen.graph_tokens(g)))
@@ -103,7 +119,8 @@ def check(tier, seed):
     maxn = 14 if tier == "quick" else 40
     c.rule = ("(graph, k) with k in {0,1,2,3,5,50}, weights unit/ties/wide/pow2 (double) and 64-bit weights above 2^53 with (m+4)*sum(w) < 2^63 (long long: 2^54 + permutation, "
               "2^54+{0..3}, 2^53+r, 2^b+r, heavy/light mixes), interior or external weight map, structured + random simple graphs n <= %d; plus direct "
-              "is_bfs_reachable calls with hop bounds around the true distance; distinct by md5; non-trivial = k >= 1 and at least one dropped edge, or a BFS call with s != t") % maxn
+              "is_bfs_reachable calls with hop bounds around the true distance (in the single-thread history also on paths with 300..700 vertices: hop distances and "
+              "bounds beyond 255); distinct by md5; non-trivial = k >= 1 and at least one dropped edge, or a BFS call with s != t") % maxn
     c.step_prove()
     ok = c.step_model()
     exe = c.harness(name="c15", srcs=["c15.cpp"], libs=LIBS)
